@@ -1069,7 +1069,7 @@ fn fragment_guard(g: &Global, fns: &[FnSrc], spec: &ModSpec, out: &mut String, e
 ///  * `STATIC_CODE_SIZE_LIMITS`: the same for `start_static_block`.
 fn structural_consts(fns: &[FnSrc], spec: &ModSpec, defs: &mut Vec<(String, String)>, errors: &mut Vec<String>) {
     use syn::visit::Visit;
-    struct V { fors: Vec<i128>, opt_args: Vec<i128> }
+    struct V { fors: Vec<i128>, opt_args: Vec<i128>, tight: Vec<i128>, write_codes: usize }
     impl<'ast> Visit<'ast> for V {
         fn visit_expr_for_loop(&mut self, f: &'ast ExprForLoop) {
             if let Expr::Range(r) = &*f.expr {
@@ -1081,7 +1081,22 @@ fn structural_consts(fns: &[FnSrc], spec: &ModSpec, defs: &mut Vec<(String, Stri
             }
             syn::visit::visit_expr_for_loop(self, f);
         }
+        fn visit_expr_binary(&mut self, b: &'ast ExprBinary) {
+            // `<…>.code_position > LZ_CODE_BUF_SIZE - N`
+            if let BinOp::Gt(_) = b.op {
+                let left_is_pos = match &*b.left { Expr::Field(f) => matches!(&f.member, Member::Named(id) if id == "code_position"), _ => false };
+                if left_is_pos {
+                    if let Expr::Binary(r) = &*b.right {
+                        if let (BinOp::Sub(_), Expr::Path(pth), Expr::Lit(ExprLit { lit: Lit::Int(n), .. })) = (&r.op, &*r.left, &*r.right) {
+                            if pth.path.segments.last().map(|x| x.ident == "LZ_CODE_BUF_SIZE").unwrap_or(false) { if let Ok(v) = n.base10_parse::<i128>() { self.tight.push(v); } }
+                        }
+                    }
+                }
+            }
+            syn::visit::visit_expr_binary(self, b);
+        }
         fn visit_expr_method_call(&mut self, m: &'ast ExprMethodCall) {
+            if m.method == "write_code" { self.write_codes += 1; }
             if m.method == "optimize_table" {
                 if let Some(Expr::Lit(ExprLit { lit: Lit::Int(a), .. })) = m.args.iter().nth(2) { if let Ok(n) = a.base10_parse::<i128>() { self.opt_args.push(n); } }
                 else { self.opt_args.push(-1); }
@@ -1091,13 +1106,27 @@ fn structural_consts(fns: &[FnSrc], spec: &ModSpec, defs: &mut Vec<(String, Stri
     }
     let mut get = |name: &str| -> Option<V> {
         let f = fns.iter().find(|f| f.key.ends_with(name))?;
-        let mut v = V { fors: vec![], opt_args: vec![] };
+        let mut v = V { fors: vec![], opt_args: vec![], tight: vec![], write_codes: 0 };
         v.visit_block(f.block);
         Some(v)
     };
     match get("compress_lz_codes") {
         Some(v) if v.fors.len() == 1 => defs.push(("Gen.DeflCore.LZ_LITERAL_BATCH".into(), format!("-- structural constant: bound of the literal batching loop in compress_lz_codes ({})\ndef Gen.DeflCore.LZ_LITERAL_BATCH : Int := ({}:Int)\n", spec.path, v.fors[0]))),
         _ => errors.push(format!("{}: compress_lz_codes: expected exactly one `for _ in 0..N` loop", spec.path)),
+    }
+    // LZ code buffer: the slack N of every `code_position > LZ_CODE_BUF_SIZE - N` test in the two token
+    // engines, and the number of code bytes one recorded literal / match writes
+    for (fname, cname) in [("compress_normal", "LZ_TIGHT_SLACK_NORMAL"), ("compress_fast", "LZ_TIGHT_SLACK_FAST")] {
+        match get(fname) {
+            Some(v) if !v.tight.is_empty() => defs.push((format!("Gen.DeflCore.{}", cname), format!("-- structural constant: slack N of each `code_position > LZ_CODE_BUF_SIZE - N` test in {} ({})\ndef Gen.DeflCore.{} : Array Int := #[{}]\n", fname, spec.path, cname, v.tight.iter().map(|x| format!("({}:Int)", x)).collect::<Vec<_>>().join(", ")))),
+            _ => errors.push(format!("{}: {}: no `code_position > LZ_CODE_BUF_SIZE - N` test found", spec.path, fname)),
+        }
+    }
+    for (fname, cname) in [("record_literal", "RECORD_LITERAL_CODES"), ("record_match", "RECORD_MATCH_CODES")] {
+        match get(fname) {
+            Some(v) if v.write_codes > 0 => defs.push((format!("Gen.DeflCore.{}", cname), format!("-- structural constant: number of write_code calls in {} ({})\ndef Gen.DeflCore.{} : Int := ({}:Int)\n", fname, spec.path, cname, v.write_codes))),
+            _ => errors.push(format!("{}: {}: no write_code call found", spec.path, fname)),
+        }
     }
     for (fname, cname) in [("HuffmanOxide::start_dynamic_block", "DYN_CODE_SIZE_LIMITS"), ("HuffmanOxide::start_static_block", "STATIC_CODE_SIZE_LIMITS")] {
         match get(fname) {
